@@ -25,6 +25,9 @@ type verifC36Epoch struct {
 	Advance int   // epochs to advance before the reward call (>= 1)
 	Rewards int64 // value sent with updateRewards
 	Fee     int64 // service fee in force when the rewards arrive
+	// NothingActive: before the reward call everybody (owner last) undelegates his whole stake, so that the reward
+	// data is recorded with TotalActive == 0; right after the reward call everybody delegates the same stake again
+	NothingActive bool
 }
 
 type verifC36Scenario struct {
@@ -39,7 +42,11 @@ type verifC36Scenario struct {
 func (sc verifC36Scenario) String() string {
 	var eps []string
 	for _, e := range sc.Epochs {
-		eps = append(eps, fmt.Sprintf("+%d epoch(s): fee %d/10000, updateRewards(%d)", e.Advance, e.Fee, e.Rewards))
+		na := ""
+		if e.NothingActive {
+			na = " [all undelegate before, re-delegate after]"
+		}
+		eps = append(eps, fmt.Sprintf("+%d epoch(s): fee %d/10000, updateRewards(%d)%s", e.Advance, e.Fee, e.Rewards, na))
 	}
 	return fmt.Sprintf("stakingV2 %v, owner stake %d, delegator stakes %v, initial fee %d; %s; claim order %v",
 		sc.StakingV2, sc.OwnerStake, sc.Stakes, sc.FirstFee, strings.Join(eps, "; "), sc.ClaimOrder)
@@ -47,7 +54,8 @@ func (sc verifC36Scenario) String() string {
 
 type verifC36Outcome struct {
 	claims   []*big.Int // by actor (0 = owner)
-	received *big.Int
+	received *big.Int   // all rewards sent
+	idle     *big.Int   // of which: sent while nothing was active
 }
 
 func verifC36Run(sc verifC36Scenario) (*verifC36Outcome, error) {
@@ -101,7 +109,13 @@ func verifC36Run(sc verifC36Scenario) (*verifC36Outcome, error) {
 			return nil, e
 		}
 	}
-	out := &verifC36Outcome{received: big.NewInt(0)}
+	out := &verifC36Outcome{received: big.NewInt(0), idle: big.NewInt(0)}
+	stakeOf := func(a int) int64 {
+		if a == 0 {
+			return sc.OwnerStake
+		}
+		return sc.Stakes[a-1]
+	}
 	fee := sc.FirstFee
 	for _, ep := range sc.Epochs {
 		w.setEpoch(w.epoch + uint32(ep.Advance))
@@ -112,11 +126,28 @@ func verifC36Run(sc verifC36Scenario) (*verifC36Outcome, error) {
 			}
 			fee = ep.Fee
 		}
+		if ep.NothingActive {
+			for a := len(actors) - 1; a >= 0; a-- {
+				res, err = w.run(actors[a], scAddr, "unDelegate", zero, big.NewInt(stakeOf(a)).Bytes())
+				if e := must("unDelegate", res, err); e != nil {
+					return nil, e
+				}
+			}
+			out.idle.Add(out.idle, big.NewInt(ep.Rewards))
+		}
 		res, err = w.run(vm.EndOfEpochAddress, scAddr, "updateRewards", big.NewInt(ep.Rewards))
 		if e := must("updateRewards", res, err); e != nil {
 			return nil, e
 		}
 		out.received.Add(out.received, big.NewInt(ep.Rewards))
+		if ep.NothingActive {
+			for a := range actors {
+				res, err = w.run(actors[a], scAddr, "delegate", big.NewInt(stakeOf(a)))
+				if e := must("delegate", res, err); e != nil {
+					return nil, e
+				}
+			}
+		}
 	}
 	out.claims = make([]*big.Int, len(actors))
 	for _, a := range sc.ClaimOrder {
@@ -138,20 +169,31 @@ func verifC36Check(sc verifC36Scenario, o *verifC36Outcome) []verifC36Finding {
 	for _, c := range o.claims {
 		total.Add(total, c)
 	}
+	// Rewards sent while nothing is active ("idle"): the contract's rule for such an epoch is "everything to the
+	// owner", but the owner can only collect while he has an active fund and every way to get one again moves
+	// his checkpoint past the epoch, so with the present code they are not handed out to anybody (measured as a
+	// class, reported in notes/reports/C36.md). The clauses below are therefore two-sided: exact for the rewards of
+	// epochs with active stake, and the idle rewards may or may not reach the owner - never anybody else, never more.
+	active := new(big.Int).Sub(o.received, o.idle)
 	if len(sc.Stakes) == 0 {
 		// the owner is the only delegator: service fee + delegators' part both go to him
-		if total.Cmp(o.received) != 0 {
-			f = append(f, verifC36Finding{"C36:delegation:sole-owner-not-exact", fmt.Sprintf("the owner is the only delegator and can claim %s, rewards distributed %s", total, o.received)})
+		if total.Cmp(active) < 0 || total.Cmp(o.received) > 0 {
+			f = append(f, verifC36Finding{"C36:delegation:sole-owner-not-exact", fmt.Sprintf("the owner is the only delegator and can claim %s, rewards distributed %s (of which %s while nothing was active)", total, o.received, o.idle)})
 		}
 	}
 	if total.Cmp(o.received) > 0 {
 		f = append(f, verifC36Finding{"C36:delegation:handed-out-more-than-rewards", fmt.Sprintf("claims add up to %s, rewards distributed %s", total, o.received)})
 	}
-	pairs := int64(len(sc.Epochs) * (len(sc.Stakes) + 1))
-	low := new(big.Int).Sub(o.received, big.NewInt(pairs))
+	pairs := int64(0)
+	for _, ep := range sc.Epochs {
+		if !ep.NothingActive {
+			pairs += int64(len(sc.Stakes) + 1)
+		}
+	}
+	low := new(big.Int).Sub(active, big.NewInt(pairs))
 	if total.Cmp(low) < 0 {
-		f = append(f, verifC36Finding{"C36:delegation:lost-more-than-floor-dust", fmt.Sprintf("claims add up to %s, rewards distributed %s: %s lost, at most one unit per delegator and epoch (%d) can be lost to rounding down",
-			total, o.received, new(big.Int).Sub(o.received, total), pairs)})
+		f = append(f, verifC36Finding{"C36:delegation:lost-more-than-floor-dust", fmt.Sprintf("claims add up to %s, rewards distributed while stake was active %s: %s lost, at most one unit per delegator and epoch (%d) can be lost to rounding down",
+			total, active, new(big.Int).Sub(active, total), pairs)})
 	}
 	if sc.StakingV2 {
 		// the owner's cut of every epoch is floor(R*fee/10000); as a delegator he also gets floor(rest*stake/totalStake)
@@ -161,7 +203,11 @@ func verifC36Check(sc verifC36Scenario, o *verifC36Outcome) []verifC36Finding {
 		}
 		expOwner := big.NewInt(0)
 		cuts := big.NewInt(0)
+		expOthers := big.NewInt(0)
 		for _, ep := range sc.Epochs {
+			if ep.NothingActive {
+				continue
+			}
 			r := big.NewInt(ep.Rewards)
 			cut := new(big.Int).Mul(r, big.NewInt(ep.Fee))
 			cut.Div(cut, big.NewInt(verifC36MaxFee))
@@ -171,9 +217,18 @@ func verifC36Check(sc verifC36Scenario, o *verifC36Outcome) []verifC36Finding {
 			expOwner.Add(expOwner, cut)
 			expOwner.Add(expOwner, share)
 			cuts.Add(cuts, cut)
+			for _, st := range sc.Stakes {
+				sh := new(big.Int).Mul(rest, big.NewInt(st))
+				expOthers.Add(expOthers, sh.Div(sh, totalStake))
+			}
 		}
-		if o.claims[0].Cmp(expOwner) != 0 {
-			f = append(f, verifC36Finding{"C36:delegation:owner-cut", fmt.Sprintf("the owner claims %s; sum over the epochs of floor(R*fee/10000) = %s plus his share as a delegator of what is left gives %s", o.claims[0], cuts, expOwner)})
+		expOwnerMax := new(big.Int).Add(expOwner, o.idle)
+		if o.claims[0].Cmp(expOwner) < 0 || o.claims[0].Cmp(expOwnerMax) > 0 || (o.idle.Sign() == 0 && o.claims[0].Cmp(expOwner) != 0) {
+			f = append(f, verifC36Finding{"C36:delegation:owner-cut", fmt.Sprintf("the owner claims %s; sum over the epochs with active stake of floor(R*fee/10000) = %s plus his share as a delegator of what is left gives %s (rewards sent while nothing was active: %s)", o.claims[0], cuts, expOwner, o.idle)})
+		}
+		others := new(big.Int).Sub(total, o.claims[0])
+		if others.Cmp(expOthers) > 0 {
+			f = append(f, verifC36Finding{"C36:delegation:delegators-got-more-than-their-part", fmt.Sprintf("the delegators other than the owner claim %s, their floor shares of the delegators' parts add up to %s", others, expOthers)})
 		}
 	}
 	return f
@@ -226,6 +281,10 @@ func verifC36GenScenario(rt *rapid.T) verifC36Scenario {
 		default:
 			ep.Rewards = rapid.Int64Range(0, 1000000000000000).Draw(rt, "rewards")
 		}
+		// nothing active when the rewards arrive (needs unDelegate, which the validator contract only serves with staking v2)
+		if sc.StakingV2 && rapid.IntRange(0, 5).Draw(rt, "nothingActive") == 0 {
+			ep.NothingActive = true
+		}
 		sc.Epochs = append(sc.Epochs, ep)
 	}
 	// claim order: a drawn permutation
@@ -262,6 +321,14 @@ func TestVerifC36_RealDelegationSplit(t *testing.T) {
 			if len(sc.Stakes) == 0 {
 				c.Class("sole-owner")
 			}
+			for _, ep := range sc.Epochs {
+				if ep.NothingActive {
+					c.Class("epoch-with-nothing-active")
+					if ep.Fee > 0 && ep.Rewards > 0 {
+						c.Class("epoch-with-nothing-active+fee>0")
+					}
+				}
+			}
 			if !sc.StakingV2 {
 				c.Class("stakingV2-off")
 			}
@@ -270,6 +337,17 @@ func TestVerifC36_RealDelegationSplit(t *testing.T) {
 			c.NoPanic("C36:delegation:panic", func() { o, err = verifC36Run(sc) })
 			if err != nil {
 				rt.Fatalf("fixture: %v\n%s", err, sc)
+			}
+			if o.idle.Sign() > 0 {
+				total := big.NewInt(0)
+				for _, cl := range o.claims {
+					total.Add(total, cl)
+				}
+				if total.Cmp(new(big.Int).Sub(o.received, o.idle)) > 0 {
+					c.Class("idle-rewards:some-reached-the-owner")
+				} else {
+					c.Class("idle-rewards:not-handed-out")
+				}
 			}
 			for _, f := range verifC36Check(sc, o) {
 				if kit.IsKnown(f.key) {
